@@ -33,7 +33,7 @@ MANIFEST = {
     "text": "Bounded symbolic: the publicity predicate is decided by z3 over an AST-derived encoding for every name and "
             "path within the bound; absence of private declarations from the output by CrossHair partitions.",
     "note": "Trusted: z3/CrossHair, translator validated against the real method each run. Known findings: '_x__' classified public; enums "
-            "emitted without publicity test.",
+            "emitted without publicity test; re-export matching by name suffix; relative re-exports through a sub-package stay private.",
     "technique": "AST->SMT encoding of the publicity predicate decided by z3 + CrossHair symbolic execution of the generator",
 }
 
